@@ -9,6 +9,7 @@ import (
 	"flag"
 	"fmt"
 	"hash/fnv"
+	"math/bits"
 	"os"
 	"sort"
 	"strconv"
@@ -290,27 +291,48 @@ func runBatches(t *testing.T, engine string, prop func(*rapid.T)) {
 
 // ------------------------------------------------------------ rapid <-> simrt
 
-type rapidChooser struct{ t *rapid.T }
+// uni draws a uniformly distributed value in [0,n). rapid's integer
+// generators are deliberately biased towards small values, which is right for
+// sizes but wrong for choices (which task runs, which construct, which
+// operation); its Bool is one unbiased bit, so choices are built from bits
+// with rejection. Shrinking still moves towards 0.
+var boolGen = rapid.Bool()
 
-func (c rapidChooser) Pick(n int) int {
+func uni(t *rapid.T, label string, n int) int {
 	if n <= 1 {
 		return 0
 	}
-	return rapid.IntRange(0, n-1).Draw(c.t, "pick")
+	k := bits.Len(uint(n - 1))
+	for {
+		v := 0
+		for i := 0; i < k; i++ {
+			v <<= 1
+			if boolGen.Draw(t, label) {
+				v |= 1
+			}
+		}
+		if v < n {
+			return v
+		}
+	}
 }
+
+type rapidChooser struct{ t *rapid.T }
+
+func (c rapidChooser) Pick(n int) int { return uni(c.t, "pick", n) }
 
 // drawSched draws a scheduling policy (swarm style) and returns sim options.
 func drawSched(t *rapid.T, estSteps int) simrt.Options {
 	o := simrt.Options{MaxSteps: 20000, PCTEst: estSteps}
-	switch rapid.IntRange(0, 9).Draw(t, "policy") {
+	switch uni(t, "policy", 10) {
 	case 0, 1, 2, 3:
 		o.Policy = simrt.Uniform
 	case 4, 5:
 		o.Policy = simrt.Sticky
-		o.StickyPct = rapid.SampledFrom([]int{50, 80, 95}).Draw(t, "sticky")
+		o.StickyPct = []int{50, 80, 95}[uni(t, "sticky", 3)]
 	case 6, 7, 8:
 		o.Policy = simrt.PCT
-		o.PCTDepth = rapid.IntRange(1, 3).Draw(t, "pctd")
+		o.PCTDepth = 1 + uni(t, "pctd", 3)
 	default:
 		o.Policy = simrt.RoundRobin
 	}
@@ -319,7 +341,7 @@ func drawSched(t *rapid.T, estSteps int) simrt.Options {
 
 // drawMapOrder draws and installs a map-order policy for the run.
 func drawMapOrder(t *rapid.T) simrt.MapPolicy {
-	p := simrt.MapPolicy(rapid.IntRange(0, 3).Draw(t, "maporder"))
+	p := simrt.MapPolicy(uni(t, "maporder", 4))
 	seed := uint64(0)
 	if p == simrt.Rotated || p == simrt.Shuffled {
 		seed = rapid.Uint64().Draw(t, "mapseed")
